@@ -209,6 +209,11 @@ def run(ctx: Ctx, repo: Repo, tier: str) -> None:
     ctx.attempt(infer_no_memory, ctx, repo, "R-C05.7")
     from .compat_rules import compat_predicates
     ctx.attempt(compat_predicates, ctx, repo, "R-C05.8", ("types_equal",))
+    # class names are the exact runtime classes: a stored class that cannot be found again must not come back as another class
+    from . import c08 as _c08
+    ctx.attempt(_c08.rule_no_impostor, ctx, repo)
+    # ... and the required / optional halves of a generated TypedDict are the same after the type went through the store
+    ctx.attempt(_c08.rule_type_round_trip, ctx, repo)
     if concrete_err is not None:
         raise concrete_err
     ctx.settle()
